@@ -155,17 +155,37 @@ def facts():
     f['tp_ok'] = ('ifnotself.is_locked:' in src and 'ifself.is_stale:' in src and 'self._clear_temp_attr()' in src
                   and src.index('ifnotself.is_locked:') < src.index('ifself.is_stale:') < src.index('self._clear_temp_attr()')
                   < src.index('returnfunc(*args,**kwargs)'))
-    # BaseNeuron._clear_temp_attr shape
+    # BaseNeuron._clear_temp_attr shape: the EXACT statement sequence (docstring and logger calls stripped) - any extra statement
+    # (e.g. one that rewrites `exclude`) changes which caches survive and is not covered by the model
+    def core_stmts(fn):
+        class Strip(ast.NodeTransformer):
+            def visit_Expr(self, node):
+                v = node.value
+                if isinstance(v, ast.Constant) and isinstance(v.value, str):
+                    return None
+                if isinstance(v, ast.Call) and isinstance(v.func, ast.Attribute) and isinstance(v.func.value, ast.Name) and v.func.value.id == 'logger':
+                    return ast.Pass()
+                return node
+        body = [Strip().visit(n) for n in fn.body]
+        return ast.unparse(ast.Module(body=[n for n in body if n is not None], type_ignores=[])).replace(' ', '').replace('\n', ';')
     ba = ast.parse((REPO / 'core/base.py').read_text())
     bcls = [n for n in ba.body if isinstance(n, ast.ClassDef) and n.name == 'BaseNeuron'][0]
     ct = [n for n in bcls.body if isinstance(n, ast.FunctionDef) and n.name == '_clear_temp_attr'][0]
-    s2 = ast.unparse(ct).replace(' ', '')
-    f['clear_ok'] = ('ifself.is_locked:' in s2 and 'self._current_md5=self.core_md5' in s2 and 'self._stale=False' in s2
-                     and 'forain[atforatinself.TEMP_ATTRifatnotinexclude]:' in s2 and 'delattr(self,a)' in s2
-                     and s2.index('ifself.is_locked:') < s2.index('self._current_md5=self.core_md5'))
+    s2 = core_stmts(ct)
+    f['clear_src'] = s2
+    f['clear_ok'] = s2 == ('ifself.is_locked:;pass;return;self._current_md5=self.core_md5;self._stale=False;'
+                           'forain[atforatinself.TEMP_ATTRifatnotinexclude]:;try:;delattr(self,a);pass;exceptAttributeError:;pass;exceptBaseException:;raise')
     st = [n for n in bcls.body if isinstance(n, ast.FunctionDef) and n.name == 'is_stale'][0]
     s3 = ast.unparse(st).replace(' ', '')
     f['clear_ok'] = f['clear_ok'] and 'self._stale=self._current_md5!=self.core_md5' in s3
+    # lock_neuron: the lock taken before the call is released in a `finally` (also when the wrapped function raises)
+    de = ast.parse((REPO / 'utils/decorators.py').read_text())
+    ln = [n for n in de.body if isinstance(n, ast.FunctionDef) and n.name == 'lock_neuron'][0]
+    wr = [n for n in ast.walk(ln) if isinstance(n, ast.FunctionDef) and n.name == 'wrapper'][0]
+    tries = [n for n in wr.body if isinstance(n, ast.Try)]
+    f['lock_ok'] = bool(tries) and any('_lock-=1' in ast.unparse(x).replace(' ', '') for t in tries for x in t.finalbody) \
+        and all('_lock-=1' not in ast.unparse(n).replace(' ', '') for n in wr.body if not isinstance(n, ast.Try)) \
+        and any('_lock=getattr(args[0],' in ast.unparse(n).replace(' ', '') for n in wr.body)
     return f
 
 
@@ -188,6 +208,7 @@ def generate():
            'Definition getstate_pops : list string := %s.' % coq_list(coq_str(a) for a in f['getstate_pops']),
            'Definition copy_clears_when_stale : bool := %s.' % ('true' if f['copy_clears'] else 'false'),
            'Definition temp_property_shape_ok : bool := %s.' % ('true' if f['tp_ok'] else 'false'),
-           'Definition clear_shape_ok : bool := %s.' % ('true' if f['clear_ok'] else 'false'), '']
+           'Definition clear_shape_ok : bool := %s.' % ('true' if f['clear_ok'] else 'false'),
+           'Definition lock_released_in_finally : bool := %s.' % ('true' if f['lock_ok'] else 'false'), '']
     msg = '%d TEMP_ATTR, %d cached views, %d clear sites' % (len(f['temp_attr']), len(f['views']), len(f['clear_sites']))
     return [('Gen_Cache.v', True, msg, '\n'.join(txt))]
